@@ -302,6 +302,10 @@ var (
 	hpW3 = addr.MustParseIA("2-ff00:0:111")
 	hpR2 = addr.MustParseIA("2-ff00:0:113")
 	hpL2 = addr.MustParseIA("2-ff00:0:114")
+	// hpW3 (the AS-number twin of hpW) is also the destination of S3, which starts at hpO2 (the twin of the AS S0
+	// starts at) with the same interfaces as S0: S0 and S3 differ in nothing but the ISD of every AS. hpW4 is the twin
+	// of hpW2 and the destination of nothing.
+	hpW4 = addr.MustParseIA("2-ff00:0:112")
 )
 
 type hpSeg struct {
@@ -378,6 +382,8 @@ func hpName(ia addr.IA) string {
 		return "R'"
 	case hpL2:
 		return "L'"
+	case hpW4:
+		return "W2'"
 	}
 	return ia.String()
 }
@@ -448,6 +454,7 @@ func hpConfig(th bool) *hpCfg {
 	mkSeg("S1v0", 1, 0, []hopSpec{{ia: hpO, out: 3, expTime: 10}, {ia: hpW2, in: 4, expTime: 10}}) // 2
 	mkSeg("S2v0", 2, 0, []hopSpec{{ia: hpX, out: 1, expTime: 10}, {ia: hpW, in: 5, expTime: 10}})  // 3
 	mkSeg("S0v2", 0, 2, []hopSpec{{ia: hpO, out: 1}, {ia: hpW, in: 2}})                            // 4 (thorough)
+	mkSeg("S3v0", 3, 0, []hopSpec{{ia: hpO2, out: 1, expTime: 10}, {ia: hpW3, in: 2, expTime: 10}}) // 5 S0's twin in ISD 2
 	d, u := seg.TypeDown, seg.TypeUp
 	c.payloads = []hpPayload{
 		{name: "[S0v0]", segs: []int{0}, types: []seg.Type{d}},                          // 0
@@ -459,10 +466,14 @@ func hpConfig(th bool) *hpCfg {
 		{name: "[S0v0:core]", segs: []int{0}, types: []seg.Type{seg.TypeCore}},          // 6 (thorough)
 		{name: "[S1v0]", segs: []int{2}, types: []seg.Type{d}},                          // 7 (thorough)
 		{name: "[S2v0]", segs: []int{3}, types: []seg.Type{d}},                          // 8 (thorough)
+		{name: "[S3v0]", segs: []int{5}, types: []seg.Type{d}},                          // 9 (thorough)
 	}
 	good := []int{0, 1, 2}
 	if th {
-		good = append(good, 5, 7, 8)
+		good = append(good, 5, 7, 8, 9)
+	} else {
+		// small configuration: S3 travels with S1 and S2 (a separate event triples the state space)
+		c.payloads[2] = hpPayload{name: "[S1v0,S2v0,S3v0]", segs: []int{2, 3, 5}, types: []seg.Type{d, d, d}}
 	}
 	type gp struct {
 		g int
@@ -503,7 +514,9 @@ func hpConfig(th bool) *hpCfg {
 		c.reqGroups = append(c.reqGroups, []int{3}, []int{3, 1}, []int{0, 1, 3})
 	}
 	c.reqPeers = []addr.IA{hpO, hpW, hpW2, hpR, hpL, hpX, hpO2, hpW3, hpR2}
-	c.reqDsts = []addr.IA{hpW, hpW2, hpR}
+	// destinations: ASes segments end at (W, W2, W' - W and W' differ only in the ISD, W and W2 only in the AS number),
+	// an AS nothing ends at, and the twin of W2 in the ISD of W' (nothing ends there either)
+	c.reqDsts = []addr.IA{hpW, hpW2, hpR, hpW3, hpW4}
 	return c
 }
 
